@@ -218,7 +218,8 @@ class NodeWorld:
         self.peers = []
         self.apps = []
         self.stop_box = None
-        self.dial_plan: dict = {}                # peer ip -> list of outcomes
+        self.dial_plan: dict = {ip: [tuple(o) if isinstance(o, list) else o for o in plan]
+                                for ip, plan in (cfg.get("dial_plan") or {}).items()}        # peer ip -> list of outcomes
         self.default_dial = cfg.get("default_dial", "inprogress")
         self.behaviour_fn = None
         self._build()
@@ -233,11 +234,15 @@ class NodeWorld:
                     ip_addresses=[NODE_IP] + [f"10.0.0.{i + 2}" for i in range(cfg.get("extra_listen", 0))] if listen else None,
                     tcp_port=3868 if listen else None, vendor_ids=cfg.get("vendor_ids", [10415, 13019]))
         t = cfg.get("node_timers", {})
-        for name in ("cea", "cer", "dwa", "idle"):
-            if name in t:
-                setattr(node, f"{name}_timeout", t[name])
-        if "wakeup" in t:
-            node.wakeup_interval = t["wakeup"]
+
+        def set_node_timers():
+            for name in ("cea", "cer", "dwa", "idle"):
+                if name in t:
+                    setattr(node, f"{name}_timeout", t[name])
+            if "wakeup" in t:
+                node.wakeup_interval = t["wakeup"]
+        if not cfg.get("timers_after_peers"):
+            set_node_timers()
         if "retransmit_queue_size" in cfg:
             node.retransmit_queue_size = cfg["retransmit_queue_size"]
         if "validate" in cfg:
@@ -254,6 +259,8 @@ class NodeWorld:
             if p.get("always_reconnect"):
                 peer.always_reconnect = True
             self.peers.append(peer)
+        if cfg.get("timers_after_peers"):
+            set_node_timers()          # the node's own timeouts are adjusted after the peers were added
         world = self
 
         class RecApp(appmod.Application):
